@@ -7,31 +7,16 @@ from .common import VERIF
 
 ALL = [f"C{i:02d}" for i in range(1, 34)]
 
-# property -> (level, technique, text, note, design_ref)
-CLAIMS = {
-    "C10": ("model_checking",
-            "TLC exhaustive on RunGrid.tla + TLC trace validation of real run() executions (hook events) + replay of TLC simulate behaviours",
-            "TLC explores every refinement choice, storage mode, symmetry setting and iteration order inside small constants and checks "
-            "IntegralConsistent / WeightOne / SavedWeightOne on every state; the same invariants are evaluated by TLC on every state of "
-            "traces recorded from the real run() (scenarios derived from TLC behaviours and seeded random ones), with the projected "
-            "K-list, weights, running-integral coefficients and files compared with the specification after every event.",
-            "trusts: the one-hot abstraction of per-K results, the projection functions in harness/rungrid_world.py, TLC; bounded to the listed geometries",
-            "DESIGN.md 3.1"),
-    "C11": ("model_checking",
-            "TLC exhaustive A/B product (uninterrupted vs stopped+restarted run) on RunGrid.tla + trace validation of real stop/restart executions with permuted directory listings",
-            "RestartEquivalence is checked by TLC over all stopping points, splits, storage modes and listing permutations inside the constants; "
-            "real run() calls are stopped and restarted along TLC-generated and random scenarios with a listing-order shim, and TLC validates the "
-            "recorded traces including equality of every saved/returned result with the uninterrupted reference.",
-            "trusts: same as C10 plus the glob shim (only permutes the real listing)",
-            "DESIGN.md 3.1"),
-    "C12": ("model_checking",
-            "TLC exhaustive over completion orders and ray.wait answers on RunGrid.tla + trace validation of the real process() under a schedule-controlled ray double + numeric serial-vs-parallel comparison with real calculators",
-            "CollectedOnce / AllCollected / IntegralConsistent are checked by TLC for every interleaving of completions and every contract-conforming "
-            "ray.wait answer; the unmodified process() is driven through those schedules and its traces validated; grid and path tabulations "
-            "are compared serial vs parallel (path order).",
-            "trusts: the ray double follows the documented ray.wait contract (one real-ray smoke run in the thorough tier)",
-            "DESIGN.md 3.1"),
-}
+def collect_claims():
+    import importlib
+    from .main import discover
+    claims = {}
+    for pid, mod in discover().items():
+        mm = importlib.import_module(mod)
+        c = mm.PROPS[pid]
+        claims[pid] = (c["level"], c["technique"], c["text"], c["note"], c["ref"])
+    return claims
+
 
 NOT_BUILT_REASON = "machinery not built yet in this round (see DESIGN.md section 5 for the plan); not claimed"
 NOT_APPLICABLE = {
@@ -41,6 +26,7 @@ NOT_APPLICABLE = {
 
 
 def build():
+    CLAIMS = collect_claims()
     checks = []
     na = []
     for pid in ALL:
